@@ -3,7 +3,10 @@ Specification automaton for the per-device loop, phrased over the VISIBLE transc
 loop makes on its driver and the answers it gets (each answer stamped with the environment's clock).
 It uses only the mapper model (`step`, `releaseAll`, `isOutputHeld`) and the property texts of
 C10, C11, C12, C20 — not the loop model.  The driver evaluates it on the IMPLEMENTATION's
-transcripts (request `LOOPMON`); `Props/C10…C20` prove that the loop model's transcripts satisfy it.
+transcripts (request `LOOPMON`) to find a concrete failing input; the property theorems themselves
+(`Props/C10…C20`) are stated on the loop model, whose transcripts are compared call by call with the
+implementation's (request `LOOPCHK`); as the two transcripts are equal on the unchanged tree, every
+run also exercises the automaton on the model's transcripts (no flag there).
 
 Import-free apart from the models.
 -/
